@@ -417,6 +417,14 @@ class Fn:
         return '_%d' % local
 
 
+def fingerprint(f):
+    """shape of a function body that survives renaming it: crate, arity, impl type, number of blocks and the multiset of callees"""
+    import hashlib
+    cs = sorted((c.defp or c.callee or '?') for c in f.calls)
+    h = hashlib.sha1(('%s|%s|%s|%d|%s' % (f.crate, f.nargs, f.impl_self_adt or '', len(f.blocks), ';'.join(cs))).encode()).hexdigest()[:16]
+    return h
+
+
 class Program:
     def __init__(self, factdir, crates=None):
         self.fns = {}
@@ -460,12 +468,71 @@ class Program:
                 self.consts[c['id']] = c
             for a in d['adts']:
                 self.adts[a['id']] = a
+        self.renamed = self._normalise_renames(raw)
         self._closures_of = None
         self._callees = {}
         self._callers = None
         self._reach_cache = {}
         self.inline_depth = 0      # >0: lookups return bodies with workspace helpers inlined that deep (see inline.py)
         self._views = {}
+
+    def _normalise_renames(self, raw):
+        """A function of the pinned inventory (tables/known_fns.json) that is missing, and a new function of the same crate with
+        the identical body shape (fingerprint), are the same function under a new name: give it its pinned name again - in its own
+        id, in its closures' ids and in every call site - so that rows naming it keep applying.  Unique matches only."""
+        try:
+            known = json.load(open(os.path.join(os.path.dirname(os.path.dirname(os.path.dirname(os.path.abspath(__file__)))), 'tables', 'known_fns.json')))['fns']
+        except Exception:
+            return {}
+        if not isinstance(known, dict):
+            return {}
+        loaded = set(self.crates)
+        present = {f.id for f in self.fns.values() if f.kind in ('fn', 'assocfn')}
+        missing = [k for k in known if k not in present and k.split('::')[0] in loaded]
+        if not missing:
+            return {}
+        new = [f for f in self.fns.values() if f.kind in ('fn', 'assocfn') and f.id not in known]
+        byfp = {}
+        for f in new:
+            byfp.setdefault(fingerprint(f), []).append(f)
+        mfp = {}
+        for k in missing:
+            mfp.setdefault(known[k], []).append(k)
+        ren = {}
+        for fp, olds in mfp.items():
+            cands = byfp.get(fp, [])
+            if len(olds) == 1 and len(cands) == 1 and cands[0].id.split('::')[0] == olds[0].split('::')[0]:
+                ren[cands[0].id] = olds[0]
+        if not ren:
+            return {}
+
+        def fix(s):
+            if not isinstance(s, str):
+                return s
+            for a, b in ren.items():
+                if s == a:
+                    return b
+                if s.startswith(a + '::'):
+                    return b + s[len(a):]
+            return s
+        newfns = {}
+        for f in self.fns.values():
+            f.id = fix(f.id)
+            f.parent = fix(f.parent)
+            for b in f.blocks:
+                t = b['t']
+                if t[0] == 'call':
+                    for k in ('def', 'res'):
+                        if k in t[1]:
+                            t[1][k] = fix(t[1][k])
+                    t[8] = [fix(x) for x in t[8]]
+                    t[9] = [fix(x) for x in t[9]]
+                for st in b['s']:
+                    if st[0] == '=' and st[2][0] == 'agg' and st[2][1].get('k') == 'closure':
+                        st[2][1]['def'] = fix(st[2][1]['def'])
+            newfns[f.id] = f
+        self.fns = newfns
+        return ren
 
     def bodies(self):
         """every body a whole-program rule should visit. Inline mode: views instead of plain bodies, and functions that are new
